@@ -458,6 +458,43 @@ def shadow_import(ctx):
         shutil.rmtree(tmp, ignore_errors=True)
 
 
+def moved_cwd(ctx):
+    """a module named by a RELATIVE path (as `python -m xdoctest pkg/mod.py` names it): an earlier doctest that leaves the process in
+    another working directory must not decide whether a later doctest of that module can still pre-import it"""
+    from xdoctest import core
+    tmp = os.path.realpath(tempfile.mkdtemp(prefix='xdverif_c11w_'))
+    cwd0 = os.getcwd()
+    path0 = list(sys.path)
+    try:
+        os.makedirs(os.path.join(tmp, 'proj', 'sub'))
+        os.makedirs(os.path.join(tmp, 'elsewhere'))
+        src = ('import os\n\nVALUE = 41\n\ndef mover():\n    """\n    >>> os.chdir(%r)\n    >>> print(VALUE)\n    41\n    """\n\n'
+               'def later():\n    """\n    >>> print(VALUE + 1)\n    42\n    """\n' % os.path.join(tmp, 'elsewhere'))
+        open(os.path.join(tmp, 'proj', 'sub', 'xdverif_c11_moves.py'), 'w').write(src)
+        for rel in (os.path.join('sub', 'xdverif_c11_moves.py'), os.path.join('.', 'sub', 'xdverif_c11_moves.py'), os.path.join('sub', '..', 'sub', 'xdverif_c11_moves.py')):
+            for order in (['later'], ['mover', 'later'], ['mover', 'mover', 'later']):
+                os.chdir(os.path.join(tmp, 'proj'))
+                for k in [k for k in sys.modules if k.startswith('xdverif_c11_moves')]:
+                    del sys.modules[k]
+                with warnings.catch_warnings():
+                    warnings.simplefilter('ignore')
+                    exs = {e.callname: e for e in core.parse_doctestables(rel, style='freeform', analysis='static')}
+                obs = [observe(exs[name], None)[0] for name in order]
+                ctx.evaluations += 1
+                if obs[-1] != 'passed' or obs[:-1] != ['passed'] * (len(order) - 1):
+                    ctx.violation('history-dependence', {
+                        'what': 'module given as the relative path %r: after the doctests %r (which change the working directory) the doctest later() is %s; alone it passes '
+                                '(observations %r)' % (rel, order[:-1], obs[-1], obs), 'history': order, 'module_source': src, 'relative_path': rel,
+                        'theorem_or_correspondence': 'C11 isolation: the working directory left by an earlier doctest'}, True)
+                    return
+    finally:
+        os.chdir(cwd0)
+        sys.path[:] = path0
+        for k in [k for k in sys.modules if k.startswith('xdverif_c11_moves')]:
+            del sys.modules[k]
+        shutil.rmtree(tmp, ignore_errors=True)
+
+
 # ---------------------------------------------------------------------------
 # RuntimeState histories vs the heap model
 # ---------------------------------------------------------------------------
@@ -619,6 +656,7 @@ def run(ctx):
     history_search(ctx)
     annotation_leak(ctx)
     shadow_import(ctx)
+    moved_cwd(ctx)
     pytest_histories(ctx)
     ctx.add_rule('RuntimeState: seeded histories of 1..4 states (default options none/{}/booleans) x 0..4 updates (block/inline, +-REQUIRES unmet a/b/met, +-SKIP) vs the heap model; '
                  'DocTest histories: permutations of 2 and 3 of the 13 doctests of a generated module + seeded histories of 4..7 with repetitions, on re-used and fresh '
